@@ -242,9 +242,19 @@ where
 {
     fn parse(input: ParseStream) -> syn::Result<Self> {
         let mut attrs = ParseableAttributes::default();
+        let mut seen_attrs: Vec<String> = Vec::new();
 
         while !input.is_empty() {
             let ident: Ident = input.parse()?;
+
+            // A repeated attribute would silently replace the earlier one (e.g. the validators of the
+            // first `validate(..)` would be dropped), so it is refused.
+            let attr_name = ident.to_string();
+            if seen_attrs.contains(&attr_name) {
+                let msg = format!("Duplicated attribute `{attr_name}`.\nPlease merge the repeated `{attr_name}` attributes into one.");
+                return Err(syn::Error::new(ident.span(), msg));
+            }
+            seen_attrs.push(attr_name);
             if ident == "sanitize" {
                 if input.peek(Paren) {
                     let content;
